@@ -584,7 +584,7 @@ fn eval_wb(req: &str) -> ImplOut {
     };
     let is_circ = |i: usize| matches!(&vals[i], Some(FormulaValue::Error { ei: Error::CIRC, .. }));
     // ---- consistency oracle: frozen copy, one formula at a time
-    let mut fr = Model::from_bytes(&m.to_bytes(), "en").unwrap();
+    let mut fr = build(&wb);
     for &i in &formulas {
         if let Some(v) = &vals[i] {
             set_value(&mut fr, wb.cells[i].0, v);
@@ -691,11 +691,15 @@ fn gen_expr(rng: &mut Rng, n: usize, rects: &[Vec<usize>], depth: u32, rich: boo
         return if rng.chance(3, 4) { E::Ref(rng.below(n as u64) as usize) } else { E::Lit(gen_lit(rng)) };
     }
     let sub = |rng: &mut Rng| Box::new(gen_expr(rng, n, rects, depth - 1, rich));
+    // operands of binary operators stay inside the modelled fragment: `(a&b)+c`, `a+(b=c)` … are
+    // printed without their parentheses by the engine's own formula printer (findings F09*, property
+    // C09) and would then be shared with a different formula of the same printed text
+    let opnd = |rng: &mut Rng| Box::new(gen_expr(rng, n, rects, depth - 1, false));
     let k = rng.below(if rich { 16 } else { 10 });
     match k {
         0..=3 => {
             let op = ['+', '-', '*', '/'][rng.below(4) as usize];
-            E::Bin(op, sub(rng), sub(rng))
+            E::Bin(op, opnd(rng), opnd(rng))
         }
         4 | 5 => E::If(sub(rng), sub(rng), sub(rng)),
         6 | 7 => E::IfErr(sub(rng), sub(rng)),
@@ -707,8 +711,8 @@ fn gen_expr(rng: &mut Rng, n: usize, rects: &[Vec<usize>], depth: u32, rich: boo
                 E::Sum(rects[rng.below(rects.len() as u64) as usize].clone())
             }
         }
-        10 => E::Cmp(['=', '<', '>'][rng.below(3) as usize], sub(rng), sub(rng)),
-        11 => E::Cat(sub(rng), sub(rng)),
+        10 => E::Cmp(['=', '<', '>'][rng.below(3) as usize], opnd(rng), opnd(rng)),
+        11 => E::Cat(opnd(rng), opnd(rng)),
         12 => {
             let name = ["AND", "OR"][rng.below(2) as usize];
             E::Fun(name.into(), vec![*sub(rng), *sub(rng)])
